@@ -217,6 +217,16 @@ def run(ck, fx, cg, tier):
             ck.ob("R6.tables", "%s uses %s in both directions" % (v, crate), ok, loc(sb), "writes with %s, reads with %s" % (st.get(v), dt.get(v)))
         ck.sample({"rule": "R6.tables", "serialize": st, "deserialize": dt})
         _verbatim(ck, fx)
+        # … and the text a stage reads is the text it was handed: the CLI's input reader is byte-transparent (no skipping,
+        # peeking-and-consuming, filtering or re-encoding between the file / stdin and the parser or deserializer)
+        from . import shared as _shs
+        sites = _shs.reader_transparency(fx)
+        for fn_, where_, ok_, why_ in _shs.partial_source_readers(fx):
+            ck.ob("R6.sources", "%s|reads the input" % fn_, ok_, where_, why_)
+        for fn, where, ok, why in sites:
+            ck.ob("R6.sources", "%s|input reader" % fn, ok, where, "the input reader is %s" % why if ok else
+                  "the text a stage receives can differ from the text the previous stage wrote: the input reader is %s" % why)
+        ck.floor("R6.sources", "places that build the CLI's input reader", len(sites), 1)
     eb = fx.body(A.get("cli.ast.extension"))
     fb = fx.body(A.get("cli.ast.from_extension"))
     if ck.anchor("R6.tables", "ASTSerializer::extension", eb) and ck.anchor("R6.tables", "ASTSerializer::from_extension", fb):
